@@ -223,6 +223,7 @@ pub fn parse_select(input: &str) -> IResult<&str, Vec<(&str, &str, Option<&str>)
 }
 
 pub fn parse_arithmetic_expression(input: &str) -> IResult<&str, ArithmeticExpression<'_>> {
+    let _expression = SparqlNestingGuard::expression();
     sparql_filter_arithmetic(input)
 }
 
@@ -551,35 +552,57 @@ fn sparql_error<'a, T>(input: &'a str, kind: nom::error::ErrorKind) -> IResult<&
 /// Deepest nesting (groups, subqueries, parenthesised filter expressions, quoted
 /// triples) the recursive-descent parsers follow; deeper input is a syntax error
 /// instead of exhausting the stack.
-const SPARQL_MAX_NESTING: usize = 128;
+// One budget bounds both the parser's recursion and the depth of the trees it
+// builds: a recursion level (parenthesis, group, quoted triple) costs
+// SPARQL_NESTING_COST, an operator appended to an expression costs 1.
+const SPARQL_DEPTH_BUDGET: usize = 1024;
+const SPARQL_NESTING_COST: usize = 8;
 
 thread_local! {
     static SPARQL_NESTING: std::cell::Cell<usize> = const { std::cell::Cell::new(0) };
 }
 
+fn sparql_charge_depth(input: &str, cost: usize) -> Result<(), nom::Err<nom::error::Error<&str>>> {
+    let depth = SPARQL_NESTING.with(|nesting| {
+        nesting.set(nesting.get() + cost);
+        nesting.get()
+    });
+    if depth > SPARQL_DEPTH_BUDGET {
+        return Err(nom::Err::Failure(nom::error::Error::new(
+            input,
+            nom::error::ErrorKind::TooLarge,
+        )));
+    }
+    Ok(())
+}
+
 /// Counts one level of parser recursion for as long as it is alive.
-struct SparqlNestingGuard;
+struct SparqlNestingGuard {
+    restore: Option<usize>,
+}
 
 impl SparqlNestingGuard {
     fn enter(input: &str) -> Result<Self, nom::Err<nom::error::Error<&str>>> {
-        let depth = SPARQL_NESTING.with(|nesting| {
-            nesting.set(nesting.get() + 1);
-            nesting.get()
-        });
-        let guard = SparqlNestingGuard;
-        if depth > SPARQL_MAX_NESTING {
-            return Err(nom::Err::Failure(nom::error::Error::new(
-                input,
-                nom::error::ErrorKind::TooLarge,
-            )));
-        }
+        let guard = SparqlNestingGuard { restore: None };
+        sparql_charge_depth(input, SPARQL_NESTING_COST)?;
         Ok(guard)
+    }
+
+    /// Root of one expression: the operators charged while it is parsed stay
+    /// charged until the whole expression is finished.
+    fn expression() -> Self {
+        SparqlNestingGuard {
+            restore: Some(SPARQL_NESTING.with(|nesting| nesting.get())),
+        }
     }
 }
 
 impl Drop for SparqlNestingGuard {
     fn drop(&mut self) {
-        SPARQL_NESTING.with(|nesting| nesting.set(nesting.get().saturating_sub(1)));
+        SPARQL_NESTING.with(|nesting| match self.restore {
+            Some(depth) => nesting.set(depth),
+            None => nesting.set(nesting.get().saturating_sub(SPARQL_NESTING_COST)),
+        });
     }
 }
 
@@ -1148,6 +1171,7 @@ fn sparql_filter_product(input: &str) -> IResult<&str, ArithmeticExpression<'_>>
         else {
             break;
         };
+        sparql_charge_depth(operator_input, 1)?;
         let (remaining, right) = sparql_filter_operand(&operator_input[operator.len_utf8()..])?;
         expression = if operator == '*' {
             ArithmeticExpression::Multiply(Box::new(expression), Box::new(right))
@@ -1170,6 +1194,7 @@ fn sparql_filter_arithmetic(input: &str) -> IResult<&str, ArithmeticExpression<'
         else {
             break;
         };
+        sparql_charge_depth(operator_input, 1)?;
         let (remaining, right) = sparql_filter_product(&operator_input[operator.len_utf8()..])?;
         expression = if operator == '+' {
             ArithmeticExpression::Add(Box::new(expression), Box::new(right))
@@ -1284,6 +1309,7 @@ fn sparql_filter_and(input: &str) -> IResult<&str, FilterExpression<'_>> {
         let Some(remaining) = operator_input.strip_prefix("&&") else {
             break;
         };
+        sparql_charge_depth(operator_input, 1)?;
         let (after_right, right) = sparql_filter_atom(remaining)?;
         expression = FilterExpression::And(Box::new(expression), Box::new(right));
         input = after_right;
@@ -1298,6 +1324,7 @@ fn sparql_filter_or(input: &str) -> IResult<&str, FilterExpression<'_>> {
         let Some(remaining) = operator_input.strip_prefix("||") else {
             break;
         };
+        sparql_charge_depth(operator_input, 1)?;
         let (after_right, right) = sparql_filter_and(remaining)?;
         expression = FilterExpression::Or(Box::new(expression), Box::new(right));
         input = after_right;
@@ -1308,6 +1335,7 @@ fn sparql_filter_or(input: &str) -> IResult<&str, FilterExpression<'_>> {
 fn sparql_filter_clause(input: &str) -> IResult<&str, FilterExpression<'_>> {
     let (input, _) = sparql_keyword(input, "FILTER")?;
     let (input, _) = sparql_char(input, '(')?;
+    let _expression = SparqlNestingGuard::expression();
     let (input, expression) = sparql_filter_or(input)?;
     let (input, _) = sparql_char(input, ')')?;
     Ok((input, expression))
